@@ -7,20 +7,20 @@ import (
 )
 
 func init() {
-	Exec["IndexRank64"] = func(a []V) string {
+	Exec["bitmap.IndexRank64"] = func(a []V) string {
 		return I32s(bitmap.IndexRank64(a[0].U64s(), a[1].Bool()))
 	}
-	Exec["IndexRank128"] = func(a []V) string {
+	Exec["bitmap.IndexRank128"] = func(a []V) string {
 		return I32s(bitmap.IndexRank128(a[0].U64s()))
 	}
 	// Rank64 with the index built by IndexRank64(words, trailing)
-	Exec["Rank64"] = func(a []V) string {
+	Exec["bitmap.Rank64"] = func(a []V) string {
 		ws := a[0].U64s()
 		idx := bitmap.IndexRank64(ws, a[1].Bool())
 		c, b := bitmap.Rank64(ws, idx, a[2].I32())
 		return L(I32(c), I32(b))
 	}
-	Exec["Rank128"] = func(a []V) string {
+	Exec["bitmap.Rank128"] = func(a []V) string {
 		ws := a[0].U64s()
 		idx := bitmap.IndexRank128(ws)
 		c, b := bitmap.Rank128(ws, idx, a[1].I32())
@@ -64,9 +64,9 @@ func genC01(g *Gen) {
 		g.Stat(bucket)
 		key := rankKey(ws, i)
 		w := U64s(ws)
-		g.Do("Rank64", L(w, "0", Int(i)), key)
-		g.Do("Rank64", L(w, "1", Int(i)), key)
-		g.Do("Rank128", L(w, Int(i)), key)
+		g.Do("bitmap.Rank64", L(w, "0", Int(i)), key)
+		g.Do("bitmap.Rank64", L(w, "1", Int(i)), key)
+		g.Do("bitmap.Rank128", L(w, Int(i)), key)
 	}
 	indexAll := func(ws []uint64) {
 		w := U64s(ws)
@@ -74,9 +74,9 @@ func genC01(g *Gen) {
 		if popcount(ws) > 0 && len(ws) > 1 {
 			key = fmt.Sprintf("idx/nw%d", minInt(len(ws), 8))
 		}
-		g.Do("IndexRank64", L(w, "0"), key)
-		g.Do("IndexRank64", L(w, "1"), key)
-		g.Do("IndexRank128", L(w), key)
+		g.Do("bitmap.IndexRank64", L(w, "0"), key)
+		g.Do("bitmap.IndexRank64", L(w, "1"), key)
+		g.Do("bitmap.IndexRank128", L(w), key)
 	}
 
 	// (1) all-zero / all-one bitmaps of 0..5 words: every position
